@@ -398,6 +398,108 @@ int drive(int argc, char** argv, const char* prop, Hooks<Case> hk)
    return 0;
 }
 
+// ------------------------------------------------------------------- fuzz --
+// libFuzzer mode (thorough tiers): the same Hooks -- same run function, same oracles, same signatures -- driven by
+// coverage-guided mutation of bytes instead of rapidcheck.  The options arrive through the environment variable
+// VF_ARGS (one argument per line).  A finding outside the excluded set is written as a replay file and recorded in
+// the evidence fragment; the campaign goes on with that signature excluded (no trap needed: the oracle is inside the
+// target).  The case about to run is saved first, so a sanitizer abort leaves its input behind for the driver.
+template<class Case>
+struct FuzzState {
+   Options o;
+   Hooks<Case> hk;
+   Tally tally;
+   CurrentCase* current = nullptr;
+   double t0 = 0;
+   long since_flush = 0;
+};
+
+template<class Case>
+inline FuzzState<Case>*& fuzz_state()
+{
+   static FuzzState<Case>* st = nullptr;
+   return st;
+}
+
+template<class Case>
+int fuzz_one(const std::uint8_t* data, std::size_t size, const char* prop, Hooks<Case> (*make)(const Options&),
+             bool (*decode)(const std::uint8_t*, std::size_t, const Options&, Case&))
+{
+   auto*& st = fuzz_state<Case>();
+   if (!st) {
+      std::vector<std::string> args{"fuzz"};
+      if (const char* env = std::getenv("VF_ARGS")) {
+         std::istringstream is(env);
+         std::string line;
+         while (std::getline(is, line)) args.push_back(line);
+      }
+      std::vector<char*> argv;
+      for (auto& a : args) argv.push_back(a.data());
+      st = new FuzzState<Case>();   // never freed: used by the atexit flush
+      st->o = parse_options(int(argv.size()), argv.data(), prop);
+      st->hk = make(st->o);
+      st->tally.excluded = st->o.known;
+      st->current = new CurrentCase(st->o.out.empty() ? std::string() : st->o.out + ".current");
+      st->t0 = now_s();
+      st->tally.notes["engine"] = "libFuzzer (coverage-guided mutation of the script bytes), semantic oracle inside the target";
+      std::atexit([] {
+         if (auto* s = fuzz_state<Case>()) write_fragment(s->o, s->tally, now_s() - s->t0);
+      });
+   }
+   Case c{};
+   if (!decode(data, size, st->o, c)) return -1;   // not added to the corpus
+   const std::string text = st->hk.to_text(c);
+   st->current->put(text);
+   Outcome out;
+   try {
+      out = st->hk.run(c, st->o);
+   }
+   catch (const std::exception& e) {
+      out.fail(std::string(prop) + ":unexpected-exception:" + sanitize(typeid(e).name()), e.what());
+   }
+   Tally& tally = st->tally;
+   ++tally.evaluations;
+   if (out.nontrivial) {
+      tally.nontrivial_hashes.insert(fnv1a(text));
+      if (tally.samples.size() < 3) tally.samples.push_back(st->hk.sample ? st->hk.sample(c) : text);
+   }
+   for (auto& [k, v] : out.classes) {
+      merge_class(tally.classes, k, v);
+      if (v > 0) ++tally.class_cases[k];
+   }
+   bool fresh = false;
+   for (auto& f : out.findings) {
+      if (tally.excluded.count(f.signature)) {
+         if (++tally.excluded_hits[f.signature] == 1) tally.excluded_example[f.signature] = f.message;
+         continue;
+      }
+      const std::string path = (st->o.replay_dir.empty() ? std::string(".") : st->o.replay_dir) + "/fuzz-" + std::to_string(st->o.shard) + "-" + sanitize(f.signature) + ".case";
+      write_file(path, text);
+      tally.violations.push_back({f.signature, f.message, path});
+      tally.excluded.insert(f.signature);
+      std::fprintf(stderr, "[%s] new signature %s -- %s\n", prop, f.signature.c_str(), f.message.c_str());
+      fresh = true;
+   }
+   if (fresh || ++st->since_flush >= 5000) {
+      st->since_flush = 0;
+      write_fragment(st->o, tally, now_s() - st->t0);
+   }
+   return 0;
+}
+
+#ifdef VF_FUZZ
+#define VF_MAIN(CaseT, PROP, MAKE, DECODE)                                                                                  \
+   extern "C" int LLVMFuzzerTestOneInput(const std::uint8_t* d, std::size_t n) { return vf::fuzz_one<CaseT>(d, n, PROP, MAKE, DECODE); }
+#else
+#define VF_MAIN(CaseT, PROP, MAKE, DECODE)                                                                                  \
+   int main(int argc, char** argv)                                                                                          \
+   {                                                                                                                        \
+      (void)DECODE;                                                                                                         \
+      const vf::Options o0 = vf::parse_options(argc, argv, PROP);                                                           \
+      return vf::drive<CaseT>(argc, argv, PROP, MAKE(o0));                                                                  \
+   }
+#endif
+
 // Generators that do not collapse at small sizes.
 template<class T>
 inline rc::Gen<T> in_range(T lo, T hi_exclusive)
